@@ -1160,6 +1160,10 @@ VmTrap vm_core_execute(VmState *vm) {
                 vm_release(&vm->heap, arr);
                 return trap_error(vm, VM_ERR_TYPE_ERROR, "ARR_POP: not an array");
             }
+            if (arr.as.array->length == 0) {
+                vm_release(&vm->heap, arr);
+                return trap_error(vm, VM_ERR_OUT_OF_BOUNDS, "ARR_POP: empty array");
+            }
             NanoValue v = vm_array_pop(arr.as.array);
             stack_push(vm, v);
             stack_push(vm, arr);
@@ -1173,7 +1177,15 @@ VmTrap vm_core_execute(VmState *vm) {
                 vm_release(&vm->heap, arr);
                 return trap_error(vm, VM_ERR_TYPE_ERROR, "ARR_GET: not an array");
             }
-            uint32_t idx = (uint32_t)(idx_v.tag == TAG_INT ? idx_v.as.i64 : 0);
+            /* Range-check the 64-bit index before narrowing it (docs/ARRAY_SAFETY.md). */
+            int64_t idx64 = (idx_v.tag == TAG_INT ? idx_v.as.i64 : 0);
+            if (idx64 < 0 || idx64 >= (int64_t)arr.as.array->length) {
+                uint32_t alen = arr.as.array->length;
+                vm_release(&vm->heap, arr);
+                return trap_error(vm, VM_ERR_OUT_OF_BOUNDS,
+                                  "ARR_GET: index %lld out of bounds (length %u)", (long long)idx64, alen);
+            }
+            uint32_t idx = (uint32_t)idx64;
             NanoValue v = vm_array_get(arr.as.array, idx);
             vm_retain(v);
             vm_release(&vm->heap, arr);
@@ -1190,14 +1202,17 @@ VmTrap vm_core_execute(VmState *vm) {
                 vm_release(&vm->heap, v);
                 return trap_error(vm, VM_ERR_TYPE_ERROR, "ARR_SET: not an array");
             }
-            uint32_t idx = (uint32_t)(idx_v.tag == TAG_INT ? idx_v.as.i64 : 0);
-            if (idx < arr.as.array->length) {
-                vm_release(&vm->heap, vm_array_get(arr.as.array, idx));
-                vm_array_set(arr.as.array, idx, v);
-            } else {
-                /* vm_array_set ignores an out-of-range index: the popped value has no owner left */
+            int64_t idx64 = (idx_v.tag == TAG_INT ? idx_v.as.i64 : 0);
+            if (idx64 < 0 || idx64 >= (int64_t)arr.as.array->length) {
+                uint32_t alen = arr.as.array->length;
+                vm_release(&vm->heap, arr);
                 vm_release(&vm->heap, v);
+                return trap_error(vm, VM_ERR_OUT_OF_BOUNDS,
+                                  "ARR_SET: index %lld out of bounds (length %u)", (long long)idx64, alen);
             }
+            uint32_t idx = (uint32_t)idx64;
+            vm_release(&vm->heap, vm_array_get(arr.as.array, idx));
+            vm_array_set(arr.as.array, idx, v);
             stack_push(vm, arr);
             break;
         }
@@ -1237,8 +1252,15 @@ VmTrap vm_core_execute(VmState *vm) {
                 vm_release(&vm->heap, arr);
                 return trap_error(vm, VM_ERR_TYPE_ERROR, "ARR_REMOVE: not an array");
             }
-            uint32_t idx = (uint32_t)(idx_v.tag == TAG_INT ? idx_v.as.i64 : 0);
-            /* the array owned the removed element: drop that reference (void when out of range) */
+            int64_t idx64 = (idx_v.tag == TAG_INT ? idx_v.as.i64 : 0);
+            if (idx64 < 0 || idx64 >= (int64_t)arr.as.array->length) {
+                uint32_t alen = arr.as.array->length;
+                vm_release(&vm->heap, arr);
+                return trap_error(vm, VM_ERR_OUT_OF_BOUNDS,
+                                  "ARR_REMOVE: index %lld out of bounds (length %u)", (long long)idx64, alen);
+            }
+            uint32_t idx = (uint32_t)idx64;
+            /* the array owned the removed element: drop that reference */
             vm_release(&vm->heap, vm_array_get(arr.as.array, idx));
             vm_array_remove(arr.as.array, idx);
             stack_push(vm, arr);
